@@ -57,6 +57,8 @@ where
         let region_lock = region.meta();
         let region_start = region_lock.start() as u64;
         let file = region.open_db_read_only_file().expect("open file");
+        #[cfg(anydb_verif)]
+        rawdb::verif::lock_rw("pages", rawdb::verif::LockMode::Read, pages);
         let pages = pages.read();
         let from = from.min(stored_len);
         let to = to.min(stored_len);
@@ -117,6 +119,13 @@ where
             self.file.seek(SeekFrom::Start(absolute_offset)).unwrap();
         }
 
+        #[cfg(anydb_verif)]
+        crate::verif::access_meta(
+            "compressed_io:refill",
+            &self._region_lock,
+            start_offset as usize,
+            total_bytes,
+        );
         self.file
             .read_exact(&mut self.buffer[..total_bytes])
             .unwrap();
